@@ -675,7 +675,7 @@ func (w *World) drawUpdate(o *op) {
 	if len(w.logs) > 1 && len(w.acceptedAnywhere()) > 0 {
 		cross = 5
 	}
-	kw := []int{16, 4, 2, 2, 1, 1, 1, 1, 1, 1, 1, 4, cross, 1}
+	kw := []int{16, 4, 2, 2, 1, 1, 1, 1, 1, 1, 1, 4, cross, 2}
 	if t.Chance(1, 10) {
 		// the same log under another spelling of its id: what would hurt if the spelling
 		// were taken for the log is a head that conflicts with the one held
@@ -880,9 +880,19 @@ func (w *World) drawUpdate(o *op) {
 		id := embedID(l, embed)
 		c = w.mkCand(fmt.Sprintf("%s/%s@%d(badsig %d)", l.name, bt.name, n, how), sh.json(0, id), l, bt, n)
 	case "offtree": // a log may sign anything: heads that lie on none of its trees, sizes at the ends of uint64
-		how := t.Intn(6)
+		how := t.Intn(8)
 		size := uint64(0)
 		switch how {
+		case 6, 7:
+			// exactly the size that is held, under another root: equal size must mean equal root - at every size, the
+			// empty tree included
+			if cur != nil {
+				size = cur.Size
+				w.s.Probe("offtree.at-held-size")
+				if size == 0 {
+					w.s.Probe("offtree.at-held-size0")
+				}
+			}
 		case 1:
 			size = uint64(t.Range(1, l.trees[0].size()))
 		case 2:
